@@ -43,16 +43,6 @@ func genNodeCase(seed uint64, tier, focus, variant string) *simk.Case {
 	c.Cfg["inspect_all"] = cfgR.Bool(0.3)
 	conc := cfgR.Bool(0.4)
 	c.Cfg["concurrent"] = conc
-	if conc {
-		hooks := []interface{}{}
-		for _, h := range []string{"update", "delete", "push.insert", "spray.select.write", "spray.failure.write", "bspray.select.write", "bspray.failure.write"} {
-			if cfgR.Bool(0.5) {
-				hooks = append(hooks, h)
-			}
-		}
-		c.Cfg["hooks"] = hooks
-	}
-
 	nb := r.Range(1, 6)
 	ex := nodeExtra{}
 	for i := 0; i < nb; i++ {
@@ -106,7 +96,7 @@ func genNodeCase(seed uint64, tier, focus, variant string) *simk.Case {
 			}
 			c.Ops = append(c.Ops, simk.Op{K: "advance", N: ms})
 		case x < 96:
-			c.Ops = append(c.Ops, simk.Op{K: "restart"})
+			c.Ops = append(c.Ops, simk.Op{K: "restart", N: int64(r.Pick(20, 300, 1500, 4000))})
 		default:
 			// burst: several submissions in the same millisecond
 			for b := 0; b < nb; b++ {
@@ -148,10 +138,14 @@ func genSpec(r *simk.Rand, i, np int, focus, algo string) BSpec {
 		sp.Src = fmt.Sprintf("dtn://s%d/app", r.Range(1, 3))
 		if np > 0 && r.Bool(0.7) {
 			sp.Prev = r.Range(1, np)
+			if sp.Dst == fmt.Sprintf("dtn://p%d/svc", sp.Prev) {
+				// a peer does not forward a bundle that is addressed to itself
+				sp.Dst = fmt.Sprintf("dtn://r%d/svc", r.Range(1, 3))
+			}
 		} else if r.Bool(0.3) {
 			sp.Prev = -1
 		}
-		sp.Seq = uint64(r.Intn(3))
+		sp.Seq = uint64(i + 1) // distinct bundles never share an ID: (source, time, sequence) is unique per spec
 		if r.Bool(0.5) {
 			sp.CT = fmt.Sprintf("past:%d", r.Range(1, 20000))
 		}
